@@ -84,6 +84,16 @@ CHECKS = {
             "UnrollSmtEncoding is driven through both entry points into the reference solver; the event log must contain no rejected command, and the recorded script, loaded into the R6 evaluator and bound to concrete executions of the reference simulator, must give every state/input/constraint/bad step symbol the value that signal has in that step. Held on the scripts and executions listed.",
             "12 (thorough: 60) random executions per script; strictness as in C05.",
             "DESIGN.md §4 C04"),
+    "C10": ("exploration",
+            "runtime monitor: pdr verdicts against explicit-state unbounded reachability under varied solver behaviours + frame-trace invariant hook (H3) checked on the explicit state space",
+            "patronus::mc::pdr runs through the real text protocol against the reference solver under rotating behaviours (3 profiles x generalisation on/off x minimal/full/random unsat cores x random models, yices profile without cores); verdicts must equal the full reachability fixpoint, be definite, stay under 10^5 queries; Fail witnesses are validated; after every main-loop iteration and before Success the frame trace handed out by hook H3 is checked against invariants every correct IC3 satisfies (over-approximation per frame; on Success: initiation, closure under the constrained transition relation, safety). Held on the runs executed.",
+            "Bit-vector systems with <= 2^8 states; z3 decides satisfiability inside the reference solver; feasibility filter as described in DESIGN.md.",
+            "DESIGN.md §4 C10"),
+    "C15": ("fault_enumeration",
+            "fault injection at every response-bearing point of recorded BMC / PDR / SolverContext conversations x 14 fault kinds, each run in a child process with a /proc-based hang observer",
+            "For each job the fault-free conversation is measured, then every (position, fault kind) pair is replayed in a child process with the fault armed inside the reference solver; outcomes are classified: verdict despite fault, panic, crash, mangled or misattributed error message, hang (solver gone or cpu burning past 1000x the fault-free time). Exhaustive over positions x kinds for the jobs executed.",
+            "Jobs are deterministic so that positions found in the fault-free run are hit again; 8 (thorough: 96) jobs.",
+            "DESIGN.md §4 C15"),
 }
 
 NOT_YET = {}
